@@ -7,7 +7,7 @@
     IPv6 peer is the value [IPv6 [0;..;0;255;255;a;b;c;d]]; it is a different value from
     [IPv4 [a;b;c;d]], as it is for [IpAddr]'s equality, and the theorems hold for it like for
     any other IPv6 value. *)
-From Sci Require Import Ingress.Model Ingress.Spec Ingress.Proofs.
+From Sci Require Import Ingress.Model Ingress.Spec Ingress.Proofs Ingress.ReplyProofs.
 Local Open Scope N_scope.
 
 (** The filter accepts exactly the datagrams the independent specification accepts: version 0,
@@ -53,10 +53,22 @@ Theorem reply_fits :
     N.of_nat (length reply) <= 1232 /\ 1232 <= PACKET_BUF_SIZE.
 Proof.
   intros local peer d effects reply H Hin. split; [|vm_compute; discriminate].
-  apply (reply_fits_lemma local d peer reply). right.
-  destruct (in_split _ _ Hin) as (l1 & l2 & ->). eauto.
+  exact (reply_fits_lemma local d peer effects reply H Hin).
 Qed.
 Print Assumptions reply_fits.
+
+(** Every reply is what the property calls an SCMP parameter-problem message: a SCION packet
+    (version 0, empty path, header length consistent) with next header SCMP (202) addressed to
+    the tunnel peer's IP address, whose payload starts with SCMP type 4, whose length fields
+    are truthful, that quotes a prefix of the offending datagram, and that is at most 1232
+    bytes long ([spec_reply_ok], literal offsets).  No hypothesis on the datagram. *)
+Theorem reply_is_parameter_problem_to_peer :
+  forall (local peer : ipaddr) (d : list N) (effects : list effect) (reply : list N),
+    ip_wf local = true -> ip_wf peer = true ->
+    gateway_inbound local d peer = Ok effects -> In (Sent reply) effects ->
+    spec_reply_ok reply d peer = true.
+Proof. intros local peer d effects reply. exact (reply_spec_lemma local d peer effects reply). Qed.
+Print Assumptions reply_is_parameter_problem_to_peer.
 
 (** One datagram causes at most one effect.  A dispatch happens only for a datagram the
     specification accepts, dispatches the packet itself and is the only effect; a reply is sent
@@ -74,14 +86,27 @@ Print Assumptions at_most_one_reply_never_dispatch.
 
 (** No datagram makes the gateway panic (no modelled panic site -- unchecked read or slice out
     of range, u32 checksum overflow, impossible accessor error -- is reachable), and the
-    outcome is exactly: accepted => one dispatch of the packet; rejected => one SCMP reply. *)
+    outcome is exactly: accepted => one dispatch of the packet; rejected => one SCMP reply, or
+    no effect at all when (and only when possible: see the next theorem) the rejected datagram
+    is itself an SCMP error message, which must not be answered with an SCMP error. *)
 Theorem no_panic :
   forall (local peer : ipaddr) (d : list N),
     bytes_ok d = true -> ip_wf local = true -> ip_wf peer = true ->
     (SpecAccept d peer /\ gateway_inbound local d peer = Ok [Dispatched (spec_packet d)]) \/
-    (~ SpecAccept d peer /\ exists reply, gateway_inbound local d peer = Ok [Sent reply]).
+    (~ SpecAccept d peer /\
+     ((exists reply, gateway_inbound local d peer = Ok [Sent reply]) \/
+      (spec_is_scmp_error d = true /\ gateway_inbound local d peer = Ok []))).
 Proof. intros local peer d. exact (exactly_one_lemma local d peer). Qed.
 Print Assumptions no_panic.
+
+(** only SCMP error messages (next header 202, first payload byte below 128) that the filter
+    rejects go unanswered: every other rejected datagram gets its reply *)
+Theorem only_scmp_errors_go_unanswered :
+  forall (local peer : ipaddr) (d : list N),
+    bytes_ok d = true -> ip_wf local = true -> ip_wf peer = true ->
+    gateway_inbound local d peer = Ok [] -> spec_is_scmp_error d = true /\ ~ SpecAccept d peer.
+Proof. intros local peer d. exact (unanswered_lemma local d peer). Qed.
+Print Assumptions only_scmp_errors_go_unanswered.
 
 (** non-vacuity: an IPv4 packet over an empty path from its own peer is dispatched; from the
     IPv4-mapped form of the same peer, and from another peer, it is answered *)
@@ -90,5 +115,7 @@ Example accepted_and_rejected :
   let local := IPv4 [192;168;1;1] in
   gateway_inbound local pkt (IPv4 [10;0;0;7]) = Ok [Dispatched pkt] /\
   (exists r, gateway_inbound local pkt (IPv6 [0;0;0;0;0;0;0;0;0;0;255;255;10;0;0;7]) = Ok [Sent r]) /\
-  (exists r, gateway_inbound local pkt (IPv4 [10;0;0;8]) = Ok [Sent r]).
-Proof. vm_compute. repeat split; eexists; reflexivity. Qed.
+  (exists r, gateway_inbound local pkt (IPv4 [10;0;0;8]) = Ok [Sent r]) /\
+  (* the same packet announcing SCMP (202) with first payload byte 42 < 128: an SCMP error, not answered *)
+  gateway_inbound local (firstn 4 pkt ++ [202] ++ skipn 5 pkt) (IPv4 [10;0;0;8]) = Ok [].
+Proof. vm_compute. repeat split; try (eexists; reflexivity). Qed.
